@@ -752,6 +752,8 @@ def fam_inject(rng, n, tag="inj"):
         # what it would discard from pending_output is needed again when a genuine packet is lost)
         lambda r: ("input", 0, r.choice([0, 1, 3, 7]), r.randrange(0, 300), r.choice([100000, r.randrange(0, 400)]), "02040502030d"),
         lambda r: ("input", 0, 2, -r.randrange(1, 1 << 30), r.choice([100000, r.randrange(0, 400)]), "02040502030d"),
+        # negative start frame WITH the disconnect flag (the flag exempts from the status-count check only)
+        lambda r: ("inputdr", 0, r.choice([0, 2, 3]), -r.randrange(1, 1 << 30), r.choice([-1, 100000, r.randrange(0, 400)]), "02040502030d"),
         lambda r: ("input", 0, 2, r.randrange(0, 300), -1, r.choice(["80", "ffffffffffffffffffff01", "8180808004", "ff", "7f7f7f"])),
         lambda r: ("input", 0, 2, r.randrange(0, 300), -1, r.choice(["020305080707070311", "020205040607"])),
         lambda r: ("input", 0, 2, 2147483647, -1, "020305080707070311"),
